@@ -257,9 +257,16 @@ func (vc *FuncVC) finish(st *State, fr *Frame, res []any) {
 		return
 	}
 	vc.frameCheck(st, sc, ct)
+	panicPath := res == nil && ct.MayPanic && st.ghost["panicked"].T == "true"
 	for _, c := range ct.Ensures {
 		if !vc.inProp(c.Tags) {
 			continue
+		}
+		if panicPath {
+			// on a panic path only clauses that do not mention results are meaningful
+			if _, ok := vc.tryBool(sc, c.E); !ok {
+				continue
+			}
 		}
 		g, _ := vc.safeBool(sc, c.E, "ensures")
 		tag := ""
@@ -317,6 +324,11 @@ func (vc *FuncVC) frameCheck(st *State, sc *Scope, ct *Contract) {
 					}
 				}
 			case ECall:
+				if x.Fn == "pointee" && len(x.Args) == 1 {
+					b := sc.old.eval(x.Args[0])
+					allowed["Pointee"] = append(allowed["Pointee"], app("uInt", app("pay", b.T)))
+					continue
+				}
 				if x.Fn != "contents" || len(x.Args) != 1 {
 					specFail("assigns %s: unsupported", a)
 				}
